@@ -272,9 +272,20 @@ namespace cereal
     ar.template saveBinary<sizeof(T)>(std::addressof(t), sizeof(t));
   }
 
+  //! Loading for bool: a byte other than 0 or 1 copied into a bool object is
+  //! undefined behaviour when the bool is read, so untrusted input is
+  //! converted instead of copied
+  inline void CEREAL_LOAD_FUNCTION_NAME(PortableBinaryInputArchive & ar, bool & t)
+  {
+    std::uint8_t b = 0;
+    ar.template loadBinary<sizeof(b)>(std::addressof(b), sizeof(b));
+    t = (b != 0);
+  }
+
   //! Loading for POD types from portable binary
   template<class T> inline
-  typename std::enable_if<std::is_arithmetic<T>::value, void>::type
+  typename std::enable_if<std::is_arithmetic<T>::value
+                          && !std::is_same<T, bool>::value, void>::type
   CEREAL_LOAD_FUNCTION_NAME(PortableBinaryInputArchive & ar, T & t)
   {
     static_assert( !std::is_floating_point<T>::value ||
